@@ -192,8 +192,21 @@ def cleanPhase (id : Bytes) : List Name → (Name → Option Wrapper) → List D
     | none => cleanPhase id rest w
     | some _ => DOp.putMark n (cleanMark id) :: cleanPhase id rest w
 
-/-- the repaired `SyncedPool.flush`: dirty marks, THEN drops, data, clean marks -/
+/-- the repaired `SyncedPool.flush` (6f78193 + 3bb25a4): dirty marks — first into the produced DBs
+    that are about to be dropped (in `queuedDropsList` order), then into every remaining wrapper's DB —
+    THEN the drops, the data, the clean marks -/
 def Pool.flush (p : Pool) (id : Bytes) (o0 o1 o2 o3 : List Name) : Pool × List DOp :=
+  let (w0, toDrop) := closePhase (o0.filter (p.queued.contains ·)) p.wrappers []
+  let opsM := toDrop.map (fun n => DOp.putMark n (dirtyMark id))
+  let (w1, opsA) := dirtyPhase id o1 w0
+  let opsB := toDrop.map DOp.drop
+  let (w2, opsC) := dataPhase o2 w1
+  let opsD := cleanPhase id o3 w2
+  (⟨w2, []⟩, opsM ++ opsA ++ opsB ++ opsC ++ opsD)
+
+/-- the intermediate repair (6f78193 only): dirty marks into the remaining wrappers' DBs, then the
+    drops — no mark at all when no wrapper remains -/
+def Pool.flushNoDropMarks (p : Pool) (id : Bytes) (o0 o1 o2 o3 : List Name) : Pool × List DOp :=
   let (w0, toDrop) := closePhase (o0.filter (p.queued.contains ·)) p.wrappers []
   let (w1, opsA) := dirtyPhase id o1 w0
   let opsB := toDrop.map DOp.drop
